@@ -57,7 +57,7 @@ func (bi *BodyInspector) Inspect(ctx context.Context, r *http.Request, profile *
 	}
 
 	contentType := r.Header.Get(constants.HeaderContentType)
-	if !strings.Contains(strings.ToLower(contentType), constants.ContentTypeJSON) {
+	if !mayCarryJSON(contentType) {
 		bi.logger.Debug("Skipping body inspection for non-JSON content", "content_type", contentType)
 		return nil
 	}
@@ -111,6 +111,17 @@ func (bi *BodyInspector) Inspect(ctx context.Context, r *http.Request, profile *
 	}
 
 	return nil
+}
+
+// mayCarryJSON says whether a body with this Content-Type is worth parsing for a model name.
+// Clients routinely post JSON without saying so: `curl -d '{...}'` announces a form, others
+// announce nothing at all, and the backends accept that. Such a request names its model like
+// any other and has to be routed by it.
+func mayCarryJSON(contentType string) bool {
+	ct := strings.ToLower(strings.TrimSpace(contentType))
+	return ct == "" ||
+		strings.Contains(ct, constants.ContentTypeJSON) ||
+		strings.HasPrefix(ct, "application/x-www-form-urlencoded")
 }
 
 func (bi *BodyInspector) extractModelName(body []byte) string {
